@@ -20,16 +20,17 @@ static int run(double seconds, int np, int nc) {
   std::atomic<int> producersLeft{np};
   std::atomic<bool> stop{false};
   std::vector<uint64_t> accepted(np, 0);
+  int quiescentBad = 0;
   {
     dispenso::MpmcRingBuffer<Tracked, CAP, RU> ring;
     auto t0 = std::chrono::steady_clock::now();
     std::vector<std::thread> th;
     for (int p = 0; p < np; ++p)
       th.emplace_back([&, p]() {
-        uint64_t base = kPerProducer * p, n = 0;
+        uint64_t base = kPerProducer * p, n = 0, iters = 0;
         unsigned rnd = 777 + p;
         while (n < kPerProducer - 4) {
-          if ((n & 255) == 0 && std::chrono::duration<double>(std::chrono::steady_clock::now() - t0).count() > seconds) break;
+          if ((++iters & 255) == 0 && std::chrono::duration<double>(std::chrono::steady_clock::now() - t0).count() > seconds) break;
           rnd = rnd * 1664525u + 1013904223u;
           switch ((rnd >> 16) & 3) {
             case 0: { Tracked t(base + n); if (ring.try_push(std::move(t))) ++n; break; }
@@ -71,14 +72,16 @@ static int run(double seconds, int np, int nc) {
         }
       });
     for (auto& t : th) t.join();
-    // the ring is quiescent: whatever is still inside is destroyed by the destructor
+    // quiescent and empty now: a push must succeed (not full) and a pop must return that element (not empty)
+    { Tracked probe(kPerProducer * np - 1); Tracked out; if (!ring.try_push(std::move(probe)) || !ring.try_pop(out) || out.tag != kPerProducer * np - 1) { std::printf("Capacity=%zu RoundUp=%d: quiescent empty ring refused a push or lost it\n", CAP, (int)RU); quiescentBad = 1; } }
+    // whatever is still inside is destroyed by the destructor
   }
   uint64_t total = 0, lost = 0;
   for (int p = 0; p < np; ++p) { total += accepted[p]; for (uint64_t i = 0; i < accepted[p]; ++i) if (!led.delivered[kPerProducer * p + i].load()) ++lost; }
   std::printf("Capacity=%zu RoundUp=%d producers=%d consumers=%d: accepted=%llu delivered=%llu duplicated=%llu lost=%llu bogus=%llu order-inversions=%llu\n", CAP, (int)RU, np, nc,
               (unsigned long long)total, (unsigned long long)led.got.load(), (unsigned long long)led.dup.load(), (unsigned long long)lost,
               (unsigned long long)led.bogus.load(), (unsigned long long)inversions.load());
-  return (led.dup.load() || lost || led.bogus.load() || inversions.load()) ? 1 : 0;
+  return (led.dup.load() || lost || led.bogus.load() || inversions.load() || quiescentBad) ? 1 : 0;
 }
 
 int main(int argc, char** argv) {
@@ -88,7 +91,8 @@ int main(int argc, char** argv) {
   for (int round = 0; !bad && std::chrono::duration<double>(std::chrono::steady_clock::now() - t0).count() < secs; ++round) {
     bad |= run<2, true>(secs / 10, 2, 2);
     bad |= run<3, false>(secs / 10, 3, 2);
-    bad |= run<4, true>(secs / 10, 4, 3);
+    bad |= run<6, true>(secs / 12, 4, 3);
+    bad |= run<3, true>(secs / 12, 2, 2);
     bad |= run<16, true>(secs / 10, 3, 3);
     bad |= run<6, false>(secs / 10, 2, 3);
     bad |= trk::lifetimeErrors("element lifetimes") ? 1 : 0;
